@@ -50,6 +50,21 @@ func init() {
 	})
 }
 
+func init() {
+	register(&Property{
+		ID: "C13", Level: "exploration",
+		Rule: "client half: after a scripted successful handshake the peer follows a per-cycle plan drawn from {answer at once / at half / 1 ns before the deadline, answer only the j-th retransmission, answer with a failure code then success, answer every transmission one interval late (surplus answer), answer late, stay silent} for up to 22 watchdog cycles, budgets MaxRetransmits 0-4, intervals 10 ms-30 s; a reference timeline computed from the observed DWR instants and DWA delivery instants gives the expected retransmissions and close instant. " +
+			"answering half: handshaken and not-yet-handshaken peers send well-formed and malformed DWRs to a state machine (server world). non-trivial = every run; distinct = hash of (budget, plan kinds, event kinds)",
+		Real: smReal, Stubbed: smStub,
+		Assume: []string{"a DWA delivered exactly on a window edge is a tie and that cycle is not judged", "no scheduling point is placed between a DWR write and the wait that follows it (the non-blocking ack hand-off there is outside the quantifier)"},
+		Scenarios: []*Scenario{
+			{Name: "client-watchdog", Weight: 3, Bubble: true, Run: func(e *Env) { c13Client(e, false) }},
+			{Name: "answering", Weight: 1, Bubble: true, Run: func(e *Env) { smaRun(e, "C13") }},
+		},
+		MustProbes: []string{"cycle-acked", "silent-peer-closed", "spared-20-cycles", "dwa-checked", "dwa-surplus", "dwa-failure-code"},
+	})
+}
+
 // ---------------------------------------------------------------- C11 sweep
 
 var sweepEntryForms = []struct {
